@@ -36,6 +36,14 @@ def _t_noref(name):
     return f
 
 
+def _t_noref_derived(name, expr, vec):
+    def f(L):
+        cls = C.mk_cls(name, define_as=expr(L.classes))
+        L.classes[name] = cls
+        L.vec[name] = dict(vec)
+    return f
+
+
 def _t_derived(name, expr, vec, refsym=None, gen=None):
     def f(L):
         define_as = expr(L.classes)
@@ -107,6 +115,7 @@ VALID = [
     ('type-Asq', ('DA',), _t_derived('DA2', lambda c: c['DA'] ** 2, {'DA': 2}, refsym='sqa')),
     ('type-noref', (), _t_noref('DW')),
     ('type-quantized', (), _t_base('DQ', 'q0', quantum=Fraction(1, 4))),
+    ('type-AperW', ('DA', 'DW'), _t_noref_derived('DAW', lambda c: c['DA'] / c['DW'], {'DA': 1, 'DW': -1})),
     ('type-ABB', ('DAB', 'DB'), _t_derived('DABB', lambda c: c['DAB'] / c['DB'], {'DA': 1, 'DB': -2}, gen='a0/b0²')),
     ('unit-a1', ('DA',), _u_scaled('DA', 'a1', '3', 'a0')),
     ('unit-a2', ('DA', 'a1'), _u_scaled('DA', 'a2', '1/7', 'a1')),
@@ -140,6 +149,10 @@ def _inv_dup_dim_equiv(L):
     from quantity.term import Term
     C.mk_cls('DABdup2', define_as=Term(((L.classes['DA'], 2), (L.classes['DB'], -1), (L.classes['DA'], -1))),
              ref_unit_symbol='dup2')
+
+
+def _inv_dup_dim_noref(L):
+    C.mk_cls('DAWdup', define_as=L.classes['DA'] / L.classes['DW'], ref_unit_symbol='awdup')
 
 
 def _inv_type_dup_symbol(L):
@@ -226,6 +239,7 @@ INVALID = [
     ('dup-dimension', ('DAB',), 'ValueError', _inv_dup_dim(None), []),
     ('dup-dimension-with-ref-symbol', ('DAB',), 'ValueError', _inv_dup_dim('abdup'), ['abdup']),
     ('dup-dimension-equivalent-term', ('DAB',), 'ValueError', _inv_dup_dim_equiv, ['dup2']),
+    ('dup-dimension-over-reference-less-type', ('DAW',), 'ValueError', _inv_dup_dim_noref, ['awdup']),
     ('type-dup-symbol', ('DA',), 'ValueError', _inv_type_dup_symbol, []),
     ('type-dup-predefined-symbol', (), 'ValueError', _inv_type_dup_predefined_symbol, []),
     ('unit-dup-symbol', ('DA',), 'ValueError', _inv_unit_dup_symbol, []),
@@ -259,7 +273,7 @@ def requires_met(L, req):
 
 def produced_names(step_name):
     """names (class / unit) a valid step adds to the ledger, to avoid declaring twice"""
-    return {'type-A': 'DA', 'type-B': 'DB', 'type-AperB': 'DAB', 'type-Asq': 'DA2', 'type-noref': 'DW',
+    return {'type-AperW': 'DAW', 'type-A': 'DA', 'type-B': 'DB', 'type-AperB': 'DAB', 'type-Asq': 'DA2', 'type-noref': 'DW',
             'type-quantized': 'DQ', 'type-ABB': 'DABB', 'unit-a1': 'a1', 'unit-a2': 'a2', 'unit-b1': 'b1',
             'unit-ab-derive': 'a1pb1', 'unit-ab-derive-gensym': 'a1/b0', 'unit-ab-term': 'abt',
             'unit-ab-term-num': 'abn', 'unit-sq-derive': 'a1²x', 'unit-sq-term3': 'sq3', 'unit-w1': 'w1',
@@ -267,7 +281,7 @@ def produced_names(step_name):
 
 
 # the closure of prerequisites, in a valid order
-PREREQ_ORDER = ['type-A', 'type-B', 'type-AperB', 'type-Asq', 'type-noref', 'type-quantized', 'unit-a1', 'unit-b1']
+PREREQ_ORDER = ['type-A', 'type-B', 'type-AperB', 'type-Asq', 'type-noref', 'type-quantized', 'type-AperW', 'unit-a1', 'unit-b1']
 
 
 def ensure(L, names):
